@@ -473,6 +473,79 @@ std::string opRtResp(const std::vector<std::string>& w)
     return "clientsees[" + clientSend(port, rs) + "]";
 }
 
+int statusOf(const std::string& raw)
+{
+    if (raw.size() < 12 || raw.compare(0, 5, "HTTP/") != 0) return 0;
+    return atoi(raw.c_str() + 9);
+}
+
+// lim <maxReq> <hexrequest> <cuts|->: the request is written in the given pieces (a short pause between them) to a live endpoint
+std::string opLim(const std::vector<std::string>& w)
+{
+    if (w.size() != 4) return "bad-op";
+    Cfg c; c.maxReq = strtoul(w[1].c_str(), nullptr, 10);
+    std::string msg = unhex(w[2]);
+    std::vector<size_t> cuts; for (auto& t : split(w[3], ',')) cuts.push_back(strtoul(t.c_str(), nullptr, 10));
+    cuts.push_back(msg.size());
+    uint16_t port = ensureEndpoint(c);
+    RespScript sc; sc.mode = "send"; sc.code = 200; sc.chunks = { "ok" };
+    int before; { std::lock_guard<std::mutex> g(G.m); G.script = sc; before = G.handled; G.seenRequest.clear(); }
+    int fd = connectTo(port); if (fd < 0) return "connect-failed";
+    size_t pos = 0; std::string raw; bool closed = false;
+    for (size_t i = 0; i < cuts.size(); ++i) {
+        size_t e = std::min(cuts[i], msg.size()); if (e < pos) e = pos;
+        if (e > pos && !sendAll(fd, msg.substr(pos, e - pos))) break;
+        pos = e;
+        // give the server time to read this piece on its own; stop as soon as it answers
+        pollfd p { fd, POLLIN, 0 };
+        if (::poll(&p, 1, i + 1 == cuts.size() ? 0 : 4) > 0) break;
+    }
+    raw = readResponse(fd, 300, &closed);
+    ::close(fd);
+    int handled; std::string seen;
+    { std::unique_lock<std::mutex> lk(G.m); if (statusOf(raw) == 200) G.cv.wait_for(lk, std::chrono::milliseconds(200), [&] { return G.handled > before; });
+      handled = G.handled - before; seen = G.seenRequest; }
+    std::string bodySeen = "-"; size_t bp = seen.find(" body="); if (handled && bp != std::string::npos) bodySeen = seen.substr(bp + 6);
+    return "status=" + std::to_string(statusOf(raw)) + " handler=" + std::to_string(handled) + " bodyseen=" + bodySeen;
+}
+
+// to <hdrMs> <bodyMs> <steps: delayMs:hex,...>: each step waits delayMs, then writes the bytes; afterwards the
+// connection is watched until the server answers or closes (at most max(hdr, body) + 2000 ms)
+std::string opTimeout(const std::vector<std::string>& w)
+{
+    if (w.size() != 4) return "bad-op";
+    Cfg c; c.hdrMs = atoi(w[1].c_str()); c.bodyMs = atoi(w[2].c_str()); c.maxReq = 1 << 16;
+    stopEndpoint();                       // a fresh endpoint: its 500 ms timer starts now
+    uint16_t port = ensureEndpoint(c);
+    RespScript sc; sc.mode = "send"; sc.code = 200; sc.chunks = { "ok" };
+    int before; { std::lock_guard<std::mutex> g(G.m); G.script = sc; before = G.handled; }
+    auto t0 = std::chrono::steady_clock::now();
+    int fd = connectTo(port); if (fd < 0) return "connect-failed";
+    auto msSince = [&] { return static_cast<long>(std::chrono::duration_cast<std::chrono::milliseconds>(std::chrono::steady_clock::now() - t0).count()); };
+    std::string raw; bool closed = false; long answeredAt = -1;
+    auto watch = [&](int ms) {      // returns true when the server answered or closed
+        pollfd p { fd, POLLIN, 0 };
+        if (::poll(&p, 1, ms) <= 0) return false;
+        char tmp[4096]; ssize_t n = ::recv(fd, tmp, sizeof tmp, 0);
+        if (n <= 0) { closed = true; if (answeredAt < 0) answeredAt = msSince(); return true; }
+        raw.append(tmp, static_cast<size_t>(n)); if (answeredAt < 0) answeredAt = msSince();
+        return true;
+    };
+    bool over = false;
+    for (auto& st : split(w[3], ',')) {
+        size_t cpos = st.find(':'); if (cpos == std::string::npos) return "bad-op";
+        int d = atoi(st.substr(0, cpos).c_str());
+        if (d > 0 && watch(d)) { over = true; break; }
+        sendAll(fd, unhex(st.substr(cpos + 1)));
+    }
+    if (!over) watch(std::max(c.hdrMs, c.bodyMs) + 2000);
+    // after an answer: does the server close the connection?
+    if (!closed && !raw.empty()) { std::string more = readResponse(fd, 400, &closed, false); raw += more; }
+    ::close(fd);
+    int handled; { std::lock_guard<std::mutex> g(G.m); handled = G.handled - before; }
+    return "status=" + std::to_string(statusOf(raw)) + " handler=" + std::to_string(handled) + " closed=" + (closed ? "1" : "0") + " at=" + std::to_string(answeredAt);
+}
+
 } // namespace
 
 int main()
@@ -481,6 +554,8 @@ int main()
     std::map<std::string, Op> ops;
     ops["resp"] = opResp;
     ops["rtreq"] = opRtReq;
+    ops["lim"] = opLim;
+    ops["to"] = opTimeout;
     ops["rtresp"] = opRtResp;
     int rc = runLoop(ops, 30);
     stopEndpoint();
